@@ -147,6 +147,46 @@ fn input_cycle_inputs(out: &mut Vec<Input>) {
     }
 }
 
+/// input-type "lassos": the variable's own type is NOT on the cycle but reaches one (a chain of 1..3 plain
+/// input types into a cycle of 1..3), and object-literal default values over recursive input types
+fn input_lasso_inputs(out: &mut Vec<Input>) {
+    for tail in 1..=3usize {
+        for cyc in 1..=3usize {
+            for edge in ["T", "[T!]", "T!"] {
+                let mut schema = String::new();
+                for i in 0..tail {
+                    let next = if i + 1 < tail { format!("Tail{}", i + 1) } else { "Cyc0".to_string() };
+                    schema.push_str(&format!("input Tail{} {{ label: String next: {} }}\n", i, next));
+                }
+                for j in 0..cyc {
+                    let next = format!("Cyc{}", (j + 1) % cyc);
+                    // a required edge closes no finite value, which is irrelevant here: generation must terminate
+                    let ty = edge.replace('T', &next);
+                    schema.push_str(&format!("input Cyc{} {{ x: Int not: {} anyOf: [{}!] }}\n", j, ty, next));
+                }
+                schema.push_str("type Query { f(a: Tail0, c: Cyc0): Int }\n");
+                out.push(Input { family: format!("input-lasso/tail{}/cycle{}/{}", tail, cyc, edge), schema: schema.clone(), query: "query Q($a: Tail0) { f(a: $a) }".into() });
+                if tail == 1 {
+                    out.push(Input { family: format!("input-lasso/both-variables/cycle{}/{}", cyc, edge), schema, query: "query Q($c: Cyc0, $a: Tail0) { f(a: $a, c: $c) }".into() });
+                }
+            }
+        }
+    }
+    // default-value literals over recursive input types: written partially, nested, with lists
+    let schema = "input Page { first: Int after: Cursor } input Cursor { id: ID page: Page pages: [Page!] }\ninput Req { first: Int after: ReqCursor! } input ReqCursor { page: Req! }\ntype Query { items(page: Page, req: Req): Int }\n";
+    for (name, vars) in [
+        ("partial", "$page: Page = { first: 10 }"),
+        ("nested", "$page: Page = { first: 1, after: { id: \"c\", page: { first: 2, after: { id: \"d\" } } } }"),
+        ("with-list", "$page: Page = { after: { pages: [{ first: 1 }, { after: { id: \"x\" } }] } }"),
+        ("empty-object", "$page: Page = {}"),
+        ("required-cycle-omitted", "$req: Req = { first: 10 }"),
+        ("required-cycle-empty", "$req: Req = {}"),
+    ] {
+        let args = if vars.starts_with("$page") { "page: $page" } else { "req: $req" };
+        out.push(Input { family: format!("input-default-literal/{}", name), schema: schema.into(), query: format!("query Q({}) {{ items({}) }}", vars, args) });
+    }
+}
+
 fn depth_inputs(out: &mut Vec<Input>) {
     for depth in [8usize, 16, 32, 64] {
         // nested selections
@@ -272,13 +312,14 @@ pub fn run(a: &Args) -> i32 {
     let mut rep = Report::new(
         "C17",
         a,
-        "adversarial (schema, query) texts: spread cycles of length 1..6 on objects / interfaces / unions, closed directly, through a field or through inline fragments, with and without __typename; lassos (a non-recursive fragment chain of length 1..3 leading into a spread cycle of length 1..3, on objects and interfaces, through fields or directly; two wrappers sharing one recursive fragment); input-type cycles incl. non-null and @oneOf; selection / type-expression / inline-fragment nesting to depth 64; empty, self-referential and ill-formed abstract types; duplicate definitions; broken syntax; each input runs in its own worker process (exit status / signal / 10 s timeout observed); non-trivial = the input contains a cycle or nesting depth >= 16",
+        "adversarial (schema, query) texts: spread cycles of length 1..6 on objects / interfaces / unions, closed directly, through a field or through inline fragments, with and without __typename; lassos (a non-recursive fragment chain of length 1..3 leading into a spread cycle of length 1..3, on objects and interfaces, through fields or directly; two wrappers sharing one recursive fragment); input-type cycles incl. non-null and @oneOf; input-type lassos (the variable's type is off the cycle: chains of 1..3 input types into cycles of 1..3 through T / [T!] / T! edges); object-literal default values over recursive input types (partial, nested, with lists, omitting a required member of a required cycle); selection / type-expression / inline-fragment nesting to depth 64; empty, self-referential and ill-formed abstract types; duplicate definitions; broken syntax; each input runs in its own worker process (exit status / signal / 10 s timeout observed); non-trivial = the input contains a cycle or nesting depth >= 16",
     );
     let mut rng = Rng::new(a.seed);
     let mut inputs = Vec::new();
     cycle_inputs(&mut rng, &mut inputs);
     lasso_inputs(&mut inputs);
     input_cycle_inputs(&mut inputs);
+    input_lasso_inputs(&mut inputs);
     depth_inputs(&mut inputs);
     odd_abstract_inputs(&mut inputs);
     broken_inputs(&mut rng, &mut inputs);
@@ -297,7 +338,7 @@ pub fn run(a: &Args) -> i32 {
         std::fs::write(&sp, &inp.schema).unwrap();
         std::fs::write(&qp, &inp.query).unwrap();
         let (kind, out) = run_worker(&exe, &sp, &qp, Duration::from_secs(10));
-        let nontrivial = inp.family.contains("cycle") || inp.family.contains("lasso") || inp.family.contains("depth16") || inp.family.contains("depth32") || inp.family.contains("depth64");
+        let nontrivial = inp.family.contains("cycle") || inp.family.contains("lasso") || inp.family.contains("default-literal") || inp.family.contains("depth16") || inp.family.contains("depth32") || inp.family.contains("depth64");
         let case_key = format!("{}\n{}", inp.schema, inp.query);
         rep.case(if nontrivial { Some(&case_key) } else { None });
         let fam = inp.family.split('/').take(2).collect::<Vec<_>>().join("/");
